@@ -221,6 +221,94 @@ def download_bucket(sl):
 _REAL = {"download_http": net.download_http}
 
 
+def download_wire(sl):
+    """the real net._download_http over a stub connection pool and an in-memory file: status handling, body written in order, size reported,
+    and the local copy carries the time of THIS download (offset tables are judged by modification times, see table_validity)"""
+    NOW = 1_000_000  # the download happens now; the server published the file long ago
+    status = fresh_int("http_status", 200, 599)
+    n_chunks = concrete(fresh_int("chunks", 0, 3))
+    sizes = [concrete(fresh_int("chunk%d_size" % i, 1, 2)) for i in range(n_chunks)]
+    chunks = [bytes([65 + i]) * sz for i, sz in enumerate(sizes)]
+    cl_sent = bool(fresh_bool("content_length_sent"))
+    expected_known = bool(fresh_bool("expected_size_known"))
+    expected = fresh_int("expected_size", 0) if expected_known else None
+    dropped_after = concrete(fresh_int("connection_dropped_after_chunk", 0, n_chunks)) if bool(fresh_bool("connection_dropped")) else None
+    headers = {"Last-Modified": "Wed, 21 Oct 2015 07:28:00 GMT", "ETag": "abc"}
+    if cl_sent:
+        headers["Content-Length"] = str(sum(sizes))
+    files, mtimes = {}, {}
+
+    class Resp:
+        def __init__(self):
+            self.status = status
+            self.headers = headers
+
+        def getheader(self, name, default=None):
+            return headers.get(name, default)
+
+        def stream(self, n):
+            for i, c in enumerate(chunks):
+                if dropped_after is not None and i == dropped_after:
+                    raise urllib3.exceptions.ProtocolError("Connection broken: IncompleteRead")
+                yield c
+            if dropped_after is not None and dropped_after == n_chunks:
+                raise urllib3.exceptions.ProtocolError("Connection broken: IncompleteRead")
+
+        def __enter__(self):
+            return self
+
+        def __exit__(self, *a):
+            return False
+
+    class Out:
+        def __init__(self, path):
+            self.path = path
+            files[path] = b""
+            mtimes[path] = NOW
+
+        def write(self, b):
+            files[self.path] += b
+            mtimes[self.path] = NOW
+
+        def __enter__(self):
+            return self
+
+        def __exit__(self, *a):
+            return False
+
+    class Os:
+        path = real_os.path
+
+        @staticmethod
+        def utime(path, times=None, **kw):
+            mtimes[path] = NOW if times is None else times[1]
+
+    local = "/data/corpus/documents.json.tmp"
+    with shadowed(net, ("int",), extra={"_request": lambda *a, **kw: Resp(), "open": lambda p, mode="r", **kw: Out(p), "os": Os}):
+        try:
+            got = net._download_http("https://example.org/corpus/documents.json", local, expected)
+            how, err = "ret", None
+        except Exception as e:  # noqa: BLE001
+            how, err, got = "raise", e, None
+    core.note("status / outcome", (core.jsonable(status) if not core.is_sym(status) else "<sym>", how, repr(err)[:80]))
+    core.trace("how", how)
+    bad = bool(status > 299)
+    if bad:
+        observe("an HTTP error status is an HTTPError, not a download", how == "raise" and isinstance(err, urllib.error.HTTPError))
+        return
+    if dropped_after is not None:
+        observe("a dropped connection surfaces as the retryable ProtocolError", how == "raise" and isinstance(err, urllib3.exceptions.ProtocolError))
+        return
+    observe("a complete body is a successful download", how == "ret")
+    if how == "ret":
+        observe("the body is written in order", files.get(local) == b"".join(chunks))
+        want = expected if expected_known else (sum(sizes) if cl_sent else None)
+        observe("the size to verify is the declared size, else the Content-Length, else unknown", (got is want) if (expected_known or want is None) else bool(got == want))
+        observe("the local copy carries the time of this download (never the server's older time stamp: a stale offset table must look older)",
+                mtimes.get(local) == NOW)
+
+
+
 # ------------------------------------------------------------------------------------------------------------------ L1
 class Net:
     """net.download with the postcondition established by harness `download` (or weaker: arbitrary size on return)"""
@@ -748,6 +836,11 @@ HARNESSES = [
             bounds={"attempt outcomes": "all sequences of <=2 (3) symbolic outcomes; 1..10 retryable faults (shared class) followed by a symbolic outcome",
                     "sizes": "unbounded integers", "initial state": "final name absent/present, stale .tmp absent/present, expected size known/unknown"},
             doc="download never leaves a partial file under the final name; retry budget; size verification"),
+    Harness("download_wire", download_wire, "symbolic", lambda tier: [{}], reads=READS + [net._download_http],
+            stubs=["net._request returns a stub response (symbolic status, headers incl. Last-Modified, body in <=3 chunks, connection may drop after any chunk)",
+                   "open/os inside esrally.utils.net over an in-memory file with a modification time"],
+            bounds={"status": "200..599 symbolic", "chunks": "0..3 of 1..2 bytes", "Content-Length": "sent or not", "expected size": "known (unbounded) or not"},
+            doc="one HTTP transfer: status, body, reported size, modification time of the local copy"),
     Harness("download_bucket", download_bucket, "symbolic", lambda tier: [{"scheme": "s3"}, {"scheme": "gs"}], reads=READS + [net.download_from_bucket],
             stubs=FS_STUB + ["blob store clients (_download_from_s3_bucket / _download_from_gcs_bucket) write a symbolic number of bytes to the path they are given"],
             bounds={"outcome": "complete / client error / process killed while writing", "sizes": "symbolic"}, doc="bucket downloads never expose a partial file under the final name"),
